@@ -376,7 +376,34 @@ fn gen_case(rng: &mut Rng) -> Case {
         }
     }
     let ntags = rng.below(3);
-    let tags: Vec<String> = (0..ntags).map(|_| rng.pick(&pool).to_string()).collect();
+    // near misses of the defined names: one in five tags differs from a pool
+    // name only by surrounding white space, letter case, a trailing dot, or is
+    // empty / non-ASCII (a tag is a name, compared byte for byte)
+    let near = |rng: &mut Rng, t: &str| -> String {
+        match rng.below(9) {
+            0 => format!("{} ", t),
+            1 => format!(" {}", t),
+            2 => format!("{}\t", t),
+            3 => t.to_uppercase(),
+            4 => format!("{}.", t),
+            5 => String::new(),
+            6 => format!("{}\u{e9}", t),
+            7 => format!("{}\u{a0}", t),
+            _ => format!("{}{}", t, t),
+        }
+    };
+    let tags: Vec<String> = (0..ntags)
+        .map(|_| {
+            let t = rng.pick(&pool).to_string();
+            if rng.chance(1, 5) { near(rng, &t) } else { t }
+        })
+        .collect();
+    // ... and sometimes it is the DEFINED name that carries the blank
+    if rng.chance(1, 12) {
+        if let Some(k) = known.first_mut() {
+            k.push(' ');
+        }
+    }
     Case {
         policy: if rng.chance(1, 2) { 0 } else { rng.below(3) as u8 },
         allow_other: rng.chance(3, 4),
